@@ -104,7 +104,12 @@ impl State {
 
 pub fn main() {
     // silence panic messages: a panic is an observation here
-    panic::set_hook(Box::new(|_| {}));
+    // (VERIF_PANIC_MSG=1 prints the message and location to stderr, for the author of a replay)
+    if std::env::var("VERIF_PANIC_MSG").is_ok() {
+        panic::set_hook(Box::new(|info| eprintln!("panic: {}", info)));
+    } else {
+        panic::set_hook(Box::new(|_| {}));
+    }
     let stdin = io::stdin();
     let stdout = io::stdout();
     let mut out = io::BufWriter::new(stdout.lock());
